@@ -434,6 +434,9 @@ class BTreePageHeader:
         self.cell_content_offset = unpack(
             b">H", page[self.offset + 5 : self.offset + 7]
         )[0]
+        # A cell content offset of zero is interpreted as 65536 (only possible with 65536 byte pages)
+        if self.cell_content_offset == 0:
+            self.cell_content_offset = MAXIMUM_PAGE_SIZE
         self.number_of_fragmented_free_bytes = ord(
             page[self.offset + 7 : self.offset + 8]
         )
